@@ -18,7 +18,7 @@ def run(ctx):
     quick = ctx.tier == "quick"
     fc.run_property(ctx, "C02", profiles=["waiters", "waiters", "mix"], corpus_props=["C02", "C01"],
                     nscripts=400 if quick else 2500,
-                    configs=[(1, 1), (2, 1)] if quick else [(1, 1), (2, 1), (1, 2), (3, 1), (2, 2, 25)],
+                    configs=[(1, 1), (2, 1), (2, 2, 12)] if quick else [(1, 1), (2, 1), (1, 2), (3, 1), (2, 2, 40)],
                     trivial_rule=nontrivial)
     ctx.cov["rule"] = ("scripts biased to 5-8 tasks blocking on one word in readFE/readFF/writeFF/writeEF before fill/empty-kind "
                        "transitions; after every call the set of tasks that returned, their values and the four waiter lists (task ids, "
